@@ -244,7 +244,7 @@ static void gf2MulTrinomial0(word c[], const word a[], const word b[],
 
 static size_t gf2MulTrinomial0_deep(size_t n)
 {
-	return ppMul_deep(n, n);
+	return O_OF_W(2 * n) + ppMul_deep(n, n);
 }
 
 static void gf2MulTrinomial1(word c[], const word a[], const word b[], 
@@ -262,7 +262,7 @@ static void gf2MulTrinomial1(word c[], const word a[], const word b[],
 
 static size_t gf2MulTrinomial1_deep(size_t n)
 {
-	return ppMul_deep(n, n);
+	return O_OF_W(2 * n) + ppMul_deep(n, n);
 }
 
 static void gf2MulPentanomial(word c[], const word a[], const word b[], 
@@ -280,7 +280,7 @@ static void gf2MulPentanomial(word c[], const word a[], const word b[],
 
 static size_t gf2MulPentanomial_deep(size_t n)
 {
-	return ppMul_deep(n, n);
+	return O_OF_W(2 * n) + ppMul_deep(n, n);
 }
 
 static void gf2SqrTrinomial0(word b[], const word a[], const qr_o* f, 
@@ -297,7 +297,7 @@ static void gf2SqrTrinomial0(word b[], const word a[], const qr_o* f,
 
 static size_t gf2SqrTrinomial0_deep(size_t n)
 {
-	return ppSqr_deep(n);
+	return O_OF_W(2 * n) + ppSqr_deep(n);
 }
 
 static void gf2SqrTrinomial1(word b[], const word a[], const qr_o* f, 
@@ -314,7 +314,7 @@ static void gf2SqrTrinomial1(word b[], const word a[], const qr_o* f,
 
 static size_t gf2SqrTrinomial1_deep(size_t n)
 {
-	return ppSqr_deep(n);
+	return O_OF_W(2 * n) + ppSqr_deep(n);
 }
 
 static void gf2SqrPentanomial(word b[], const word a[], const qr_o* f, 
@@ -331,7 +331,7 @@ static void gf2SqrPentanomial(word b[], const word a[], const qr_o* f,
 
 static size_t gf2SqrPentanomial_deep(size_t n)
 {
-	return ppSqr_deep(n);
+	return O_OF_W(2 * n) + ppSqr_deep(n);
 }
 
 static void gf2Inv(word b[], const word a[], const qr_o* f, void* stack)
@@ -698,5 +698,8 @@ bool_t gf2QSolve(word x[], const word a[], const word b[],
 
 size_t gf2QSolve_deep(size_t n, size_t f_deep)
 {
-	return O_OF_W(n) + f_deep;
+	return O_OF_W(n) + 
+		utilMax(2,
+			f_deep,
+			gf2Tr_deep(n, f_deep));
 }
